@@ -30,15 +30,19 @@ typedef struct { unsigned char *base; size_t off, memsize, gfront, gback; unsign
  *   pat    guard zones filled with the byte 0xA5 (default)
  *   fake   guard zones filled with images of a one-slot key entry (count 1, link -1): an access to
  *          tblslots[idx] with idx outside the table finds something that looks like a slot
- *   exact  no guard zone behind the region: the region ends where the heap block ends, so that the
- *          first byte behind it is an ASan red zone */
+ *          (behind the region and at tblslots[-1] in front of it)
+ *   exact  no guard zones: the region is exactly the heap block, so that the bytes in front of and
+ *          behind it are ASan red zones */
 static int gmode = 0;
 
 static region_t region_new(size_t memsize, size_t off) {
     region_t r;
     r.off = off; r.memsize = memsize;
-    r.gfront = GUARDSZ; r.gback = gmode == 2 ? 0 : GUARDSZ;
+    if (gmode == 2) off = 0;          /* exact: the region IS the heap block (red zones on both sides) */
+    r.off = off;
+    r.gfront = gmode == 2 ? 0 : GUARDSZ; r.gback = gmode == 2 ? 0 : GUARDSZ;
     size_t total = r.gfront + off + memsize + r.gback;
+    if (total == 0) total = 1;
     r.base = malloc(total);
     memset(r.base, PAT, total);
     r.mem = r.base + r.gfront + off;
@@ -48,6 +52,13 @@ static region_t region_new(size_t memsize, size_t off) {
         fake.count = 1; fake.datasize = 1; fake.link = -1;
         unsigned char *t = r.mem + memsize;
         for (size_t i = 0; i + sizeof fake <= r.gback; i += sizeof fake) memcpy(t + i, &fake, sizeof fake);
+        /* tblslots[-1]: its scalar fields, the name area and namesize lie in front of the region (its
+         * last bytes overlap the header): make them look like a key slot "G" with a 1-byte value */
+        unsigned char *f = r.mem + sizeof(qhasharr_data_t) - sizeof fake;
+        memcpy(f, &fake, offsetof(qhasharr_slot_t, data));
+        f[offsetof(qhasharr_slot_t, data) + offsetof(struct Q_HASHARR_SLOT_KEYVAL, name)] = 'G';
+        f[offsetof(qhasharr_slot_t, data) + offsetof(struct Q_HASHARR_SLOT_KEYVAL, namesize)] = 1;
+        f[offsetof(qhasharr_slot_t, data) + offsetof(struct Q_HASHARR_SLOT_KEYVAL, namesize) + 1] = 0;
     }
     r.ref = malloc(total);
     memcpy(r.ref, r.base, total);
@@ -125,6 +136,9 @@ static unsigned long long fnv64(const char *s, size_t n) {
     return h;
 }
 
+/* errname of common.h plus EIO (qhasharr_debug) */
+static const char *ename(int e) { return e == EIO ? "EIO" : errname(e); }
+
 static const size_t OFFS[] = {4, 8, 12, 20, 36, 100, 2052, 16, 24, 1028};
 
 int main(void) {
@@ -158,8 +172,85 @@ int main(void) {
             }
             shadow = malloc(memsize ? memsize : 1);
             sb_puts(&res, "init ok"); all = true;
+        } else if ((nw == 2 || nw == 3) && !strcmp(op, "ctor")) {
+            /* the constructor on a region of its own (the current history is not touched): result, header,
+             * "nothing written" on refusal / for memsize 0, every byte behind the header zero on success,
+             * guard zones */
+            size_t memsize = strtoull(w[1], NULL, 10);
+            int saved = gmode;
+            gmode = nw == 3 && !strcmp(w[2], "exact") ? 2 : 0;
+            region_t T = region_new(memsize, 4);
+            errno = 0;
+            qhasharr_t *t = qhasharr(T.mem, memsize);
+            int e = errno;
+            bool same = memcmp(T.mem, T.ref + T.gfront + T.off, memsize) == 0;
+            bool g = guards_ok(&T);
+            if (!t) printf("ctor null %s %s g%d\n", errname(e), same ? "untouched" : "written", g);
+            else if (memsize == 0) printf("ctor attach %s g%d\n", same ? "untouched" : "written", g);
+            else {
+                qhasharr_data_t *h = (qhasharr_data_t *) T.mem;
+                bool zero = true;
+                for (size_t o = sizeof(qhasharr_data_t); o < memsize; o++) if (T.mem[o] != 0) zero = false;
+                int max = -1, used = -1, num = t->size(t, &max, &used);
+                bool agree = max == h->maxslots && used == h->usedslots && num == h->num;
+                printf("ctor ok %d %d %d %s g%d\n", h->maxslots, h->usedslots, h->num, zero && agree ? "zero" : "nonzero", g);
+            }
+            if (t) t->free(t);
+            region_free(&T);
+            gmode = saved;
+            alarm(0);
+            continue;
+        } else if (nw == 2 && !strcmp(op, "memsize")) {
+            printf("memsize %zu\n", qhasharr_calculate_memsize(atoi(w[1])));
+            alarm(0);
+            continue;
         } else if (!tbl) {
             printf("noinit\n"); continue;
+        } else if (nw == 4 && !strcmp(op, "inv")) {
+            /* every documented-invalid call (and two valid border cases) on the current table, through
+             * the method pointers; `tok=answer` per call, then the image as after any operation */
+            bytes_t k;
+            if (!unhex(w[1], &k) || k.n == 0) { printf("bad-op\n"); continue; }
+            static const unsigned char d1[2] = {'x', 0};
+            const char *kk = "k";
+            size_t sz; int idx; qhasharr_obj_t obj; void *p;
+            sb_puts(&res, "inv");
+#define ANSB(tok, call) do { errno = 0; bool ok_ = (call); int e_ = errno; sb_puts(&res, " " tok "="); sb_puts(&res, ok_ ? "ok" : ename(e_)); } while (0)
+#define ANSP(tok, call) do { errno = 0; p = (call); int e_ = errno; sb_puts(&res, " " tok "="); if (p) { sb_puts(&res, "data"); free(p); } else { sb_puts(&res, "null:"); sb_puts(&res, errname(e_)); } } while (0)
+#define ANSQ(tok, call) do { errno = 0; p = (call); int e_ = errno; sb_puts(&res, " " tok "="); if (p) { sb_puts(&res, "data"); free(p); } else sb_puts(&res, errname(e_)); } while (0)
+            ANSB("pbo:nn", tbl->put_by_obj(tbl, NULL, 1, d1, 1));
+            ANSB("pbo:ns0", tbl->put_by_obj(tbl, kk, 0, d1, 1));
+            ANSB("pbo:dn", tbl->put_by_obj(tbl, kk, 1, NULL, 1));
+            ANSB("pbo:ds0", tbl->put_by_obj(tbl, kk, 1, d1, 0));
+            ANSB("pbo:tbl", tbl->put_by_obj(NULL, kk, 1, d1, 1));
+            ANSB("put:nn", tbl->put(tbl, NULL, d1, 1));
+            ANSB("put:dn", tbl->put(tbl, kk, NULL, 1));
+            ANSB("put:ds0", tbl->put(tbl, kk, d1, 0));
+            ANSB("putstr:nn", tbl->putstr(tbl, NULL, "x"));
+            ANSB("putstr:dn", tbl->putstr(tbl, kk, NULL));
+            sz = 77; ANSQ("gbo:nn", tbl->get_by_obj(tbl, NULL, 1, &sz));
+            ANSQ("gbo:ns0", tbl->get_by_obj(tbl, kk, 0, &sz));
+            ANSQ("gbo:tbl", tbl->get_by_obj(NULL, kk, 1, &sz));
+            ANSQ("get:nn", tbl->get(tbl, NULL, &sz));
+            ANSQ("getstr:nn", tbl->getstr(tbl, NULL));
+            ANSP("gbo:nosize", tbl->get_by_obj(tbl, k.p, k.n, NULL));
+            ANSB("rbo:nn", tbl->remove_by_obj(tbl, NULL, 1));
+            ANSB("rbo:ns0", tbl->remove_by_obj(tbl, kk, 0));
+            ANSB("rbo:tbl", tbl->remove_by_obj(NULL, kk, 1));
+            ANSB("rm:nn", tbl->remove(tbl, NULL));
+            ANSB("rmi:-1", tbl->remove_by_idx(tbl, -1));
+            ANSB("rmi:max", tbl->remove_by_idx(tbl, ((qhasharr_data_t *) R.mem)->maxslots));
+            idx = 0; ANSB("next:obj", tbl->getnext(tbl, NULL, &idx) || idx != 0);
+            ANSB("next:idx", tbl->getnext(tbl, &obj, NULL));
+            idx = 0; ANSB("next:tbl", tbl->getnext(NULL, &obj, &idx) || idx != 0);
+            idx = -1; ANSB("next:-1", tbl->getnext(tbl, &obj, &idx) || idx != -1);
+            ANSB("size:tbl", tbl->size(NULL, &idx, &idx) != -1);
+            sb_puts(&res, " size:noout="); sb_int(&res, tbl->size(tbl, NULL, NULL));
+            errno = 0; tbl->clear(NULL); sb_puts(&res, " clear:tbl="); sb_puts(&res, errno ? errname(errno) : "none");
+            ANSB("debug:tbl", tbl->debug(NULL, stdout));
+            ANSB("debug:out", tbl->debug(tbl, NULL));
+            if (sz != 77) sb_puts(&res, " size-written");
+            free(k.p);
         } else if (nw == 5 && (!strcmp(op, "put") || !strcmp(op, "sput"))) {
             bytes_t k, v;
             if (!unhex(w[1], &k) || !unhex(w[2], &v)) { printf("bad-op\n"); continue; }
@@ -192,6 +283,32 @@ int main(void) {
             int e = errno;
             if (d) { sb_puts(&res, "data "); sb_hex(&res, d, sz); free(d); } else { sb_puts(&res, "null "); sb_puts(&res, errname(e)); }
             free(k.p);
+        } else if (nw == 5 && !strcmp(op, "putstr")) {
+            bytes_t k, v;
+            if (!unhex(w[1], &k) || !unhex(w[2], &v)) { printf("bad-op\n"); continue; }
+            char *s = cstr_exact(&k), *t = cstr_exact(&v);
+            errno = 0;
+            bool ok = tbl->putstr(tbl, s, t);
+            int e = errno;
+            keys_add(&ks, (unsigned char *) s, k.n + 1);
+            if (ok) sb_puts(&res, "ok"); else { sb_puts(&res, "false "); sb_puts(&res, errname(e)); }
+            free(s); free(t); free(k.p); free(v.p);
+        } else if (nw == 4 && !strcmp(op, "getstr")) {
+            /* getstr returns no size: the size comes from a second lookup, the bytes from getstr's block */
+            bytes_t k;
+            if (!unhex(w[1], &k)) { printf("bad-op\n"); continue; }
+            char *s = cstr_exact(&k);
+            errno = 0;
+            char *d = tbl->getstr(tbl, s);
+            int e = errno;
+            keys_add(&ks, (unsigned char *) s, k.n + 1);
+            if (d) {
+                size_t sz = 0; void *d2 = tbl->get(tbl, s, &sz);
+                sb_puts(&res, "data "); sb_hex(&res, d, d2 ? sz : 0);
+                if (!d2 || memcmp(d, d2, sz) != 0) sb_puts(&res, " getstr-differs");
+                free(d2); free(d);
+            } else { sb_puts(&res, "null "); sb_puts(&res, errname(e)); }
+            free(s); free(k.p);
         } else if (nw == 4 && (!strcmp(op, "rm") || !strcmp(op, "srm"))) {
             bytes_t k;
             if (!unhex(w[1], &k)) { printf("bad-op\n"); continue; }
